@@ -150,6 +150,30 @@ example : (match parseTest srcErr with
     | _ => false) = true := by
   decide +kernel
 
+-- fix F23 on its own input: the one column `B_out` is the input's column and the `_out` (expected) column of the bidirectional
+-- `B`; the `X` is expanded for the input (0, then 1) and stays `X` for the expected value of `B`, whatever the device answers
+def drvB : Driver Nat :=
+  { rw := fun n _ => (n + 1, .ok [(⟨"B", 1, .bidir (.val 0)⟩, .val 1)]),
+    wo := Driver.defaultWo (fun n _ => (n + 1, .ok [(⟨"B", 1, .bidir (.val 0)⟩, .val 1)])) }
+
+def runB (tc : TestCase) : Nat → RowIt → Nat → List (List InVal × List ExpVal)
+  | 0, _, _ => []
+  | n+1, s, d =>
+    match s.next tc drvB 1000 d with
+    | .item (.row r) s' d' _ => (r.inputs.map (·.value), r.outputs.map (·.expected)) :: runB tc n s' d'
+    | _ => []
+
+example : (match parseTest "B_out\nX\n".toList with
+    | .ok p =>
+      (match withSignals p [⟨"B_out", 1, .input (.val 0)⟩, ⟨"B", 1, .bidir (.val 0)⟩] with
+      | .ok tc =>
+        (match tryNew tc drvB 0 rng with
+        | .ok s d _ => runB tc 5 s d == [([.val 0, .val 0], [.x]), ([.val 1, .val 0], [.x])]
+        | _ => false)
+      | _ => false)
+    | _ => false) = true := by
+  decide +kernel
+
 /-- the text is accepted: the hypotheses of `C10_accepted_wf` / `C10_accepted_never_panics` / `C11_bind_iff` are met -/
 theorem accepted : ∃ p tc, parseTest src = .ok p ∧ withSignals p sigs = .ok tc := by
   have h : (match parseTest src with
